@@ -52,16 +52,25 @@ Non-trivial = at the restart at least one case was complete and at least one was
 raised).  Distinct = distinct scenario JSON.  The positions of the *other* workers at the kill are whatever
 the OS scheduler made of them (plus delay_ms, work_ms): sampled, not controlled - stated limitation.
 
-Sensitivity (tools/mut.py, quick tier, all CAUGHT):
-  fixes/revert-e71b860.diff (tuple must_include not parsed on restart)      -> completes/exception ValueError
-  fixes/revert-f86d9b1.diff (case_number=run_num closure)                   -> labels + one_result
-  fixes/revert-ae3bd3c.diff (success marker written before the result file) -> completes/exception
-                                                                               (FileNotFoundError / BadZipFile)
-  `if run_num in cases_to_skip:` -> `if False:`   (completed cases re-executed)        -> counters + one_result
-  `mp_results = mp_results + previous_run_data` -> `mp_results = mp_results`           -> one_result
-  `if not os.path.isfile(success_file_path):` (first) -> `if os.path.isfile(...)`      -> completes/exception
-  `input_data[2] = float(input_data[2])` -> `float(input_data[1])` (end := start)      -> equal / labels
-  `previous_run_data.append((run_num, run_indicies, ...` -> `(run_num, run_indicies[::-1], ...` -> labels
+Sensitivity (tools/mut.py, quick tier, all CAUGHT; signatures seen in brackets):
+  fixes/revert-e71b860.diff (tuple must_include not parsed on restart)      [completes/exception ValueError]
+  fixes/revert-f86d9b1.diff (case_number=run_num closure)                   [labels + one_result, reference and restart]
+  fixes/revert-ae3bd3c.diff (success marker written before the result file) [completes/exception FileNotFoundError,
+                                                                             BadZipFile, EOFError]
+  dropped `continue` after `skipped_indicies[run_num] = ...` (completed cases run again)
+                                                          [counters/completed_case_executed_again, one_result/duplicate]
+  `mp_results = mp_results + previous_run_data` -> `pass` (reloaded results dropped)       [one_result/missing]
+  first `if not os.path.isfile(success_file_path):` -> `if os.path.isfile(...)`            [completes/exception, counters]
+  `input_data[2] = float(input_data[2])` -> `float(input_data[1])` (end := start on restart) [completes/exception, counters]
+  `previous_run_data.append((run_num, run_indicies, ...` -> `run_indicies[::-1]`           [labels]
+  np.load of the first skipped case's file for every skipped case (stale alias)            [equal, labels]
+
+Outside the enumerated steps (experiment, not part of the verdict): a kill while the log header is being written
+(tpy_mp.log exists but is empty/incomplete) makes the restart raise IndexError (mesh[0] of an empty grid) or run a
+smaller grid; proposed patch in out/proposed-fix-C18-1.diff.
+
+Measured: one scenario ~3 CPU-s (three runs of ~1 s: 0.8 s import + pool start); quick = 18 fixed + 142 generated
+scenarios on 16 shards.
 """
 import json
 import os
@@ -92,7 +101,7 @@ LEVEL_NOTE = ('Trusts: Linux SIGKILL/process-group semantics and page-cache pers
               'fork start method of pathos/multiprocess and dill by-reference pickling of module globals (asserted in selftest), '
               'the harness model of the grid (numpy linspace/logspace/unique), and the injected truncation as model of a '
               'partially written npz.  Study function, counters and proxies are harness code.')
-CASES = {'quick': 110, 'thorough': 2000}
+CASES = {'quick': 142, 'thorough': 4000}
 SHARDS = {'quick': 16, 'thorough': 16}
 TIMEOUT = {'quick': 1500, 'thorough': 4 * 3600}
 SHRINK_BUDGET = (12, 60.0)
@@ -286,6 +295,22 @@ def required_labels(tier):
                'raise:some', 'raise:none', 'pool:4-7', 'pool:8-11', 'pool:12-16', 'restart:reloaded_some',
                'restart:reran_some', 'at_restart:marker_and_result', 'at_restart:result_without_marker',
                'at_restart:truncated_result', 'at_restart:dir_only'])
+
+
+def extra_coverage(tier, merged):
+    lab = merged['labels']
+    fired = {s: lab.get('killed:' + s, 0) for s in STEPS}
+    out = {'kill_points_fired_per_step': fired, 'kill_points_fired': sum(fired.values()),
+           'kill_planned_but_not_reached': lab.get('kill:not_reached', 0),
+           'scenarios_without_kill_raising_only': lab.get('kill:none', 0),
+           'explanation': 'each evaluation = one scenario = reference run + faulted run 1 + restart run 2 of the real '
+                          'multiprocessing_run in its own process group; kill_points_fired counts scenarios whose SIGKILL was '
+                          'actually delivered at the named step (marker file written by the proxy just before killpg).'}
+    if tier == 'thorough':
+        out['enumerated'] = ('every (case 0..8, step) of a 3x3 grid x pool sizes 4, 6, 9, 16 (must_include tuple/list/tuple/none) '
+                             'x kill delay 0/15 ms = 576 scenarios, in addition to the generated ones; the schedule of the '
+                             'other workers is sampled, so the space is not exhausted')
+    return out
 
 
 # ---- process plumbing -------------------------------------------------------------------------------------
